@@ -248,3 +248,16 @@ Proof.
   - unfold len in *. lia.
   - intros tw Htw. pose proof (towers_pack_ge (len (er_towers m)) tw _ 0 Htw). unfold len in *. lia.
 Qed.
+
+(* re-packing the decoded (normalised) value gives the same bytes *)
+Lemma floor_pack_norm f : floor_pack (floor_norm f) = floor_pack f.
+Proof. destruct f as [k p l r]. destruct k; reflexivity. Qed.
+Lemma tower_bytes_norm t : tower_bytes (map floor_norm t) = tower_bytes t.
+Proof. unfold tower_bytes. rewrite len_map, map_map. f_equal. f_equal. f_equal. apply map_ext. intros f. apply floor_pack_norm. Qed.
+Lemma towers_pack_norm n : forall ts idx, towers_pack n idx (map (map floor_norm) ts) = towers_pack n idx ts.
+Proof. induction ts as [|t r IH]; intros idx; [reflexivity|]. cbn [map towers_pack]. rewrite tower_bytes_norm, IH. reflexivity. Qed.
+Lemma referents_pack_norm : forall ts idx, referents_pack idx (map (map floor_norm) ts) = referents_pack idx ts.
+Proof. induction ts as [|t r IH]; intros idx; [reflexivity|]. cbn [map referents_pack]. now rewrite IH. Qed.
+Lemma ept_map_result_pack_norm m : ept_map_result_pack (ept_map_result_norm m) = ept_map_result_pack m.
+Proof. unfold ept_map_result_pack, ept_map_result_norm. cbn [er_towers er_entry_handle er_status].
+  rewrite len_map, towers_pack_norm, referents_pack_norm. reflexivity. Qed.
